@@ -104,6 +104,9 @@ func judgeC07(c c07Case) []Violation {
 			}
 		case "mnt":
 			rep = w.srv.Call(progMount, 3, 1, cred, xdrOpaque(q.Name))
+		case "mnt1":
+			// the same procedure over MOUNT version 1, which the server also accepts
+			rep = w.srv.Call(progMount, 1, 1, cred, xdrOpaque(q.Name))
 		}
 		_ = rep
 		uses, targets := fs.TakePaths()
@@ -120,8 +123,15 @@ func judgeC07(c c07Case) []Violation {
 			case handlePaths[path.Dir(p)] && validComponent(path.Base(p)):
 			default:
 				cls := "backend-path-not-handle-plus-component"
-				if q.Proc == "mnt" {
+				if q.Proc == "mnt" || q.Proc == "mnt1" {
 					cls = "mnt-path-not-handle-plus-component"
+					// the known finding is about multi-component paths of VALID components; a component that breaks
+					// the name rules reaching the backend is a different failure
+					for _, comp := range strings.Split(strings.TrimPrefix(p, "/"), "/") {
+						if p != "/" && !validComponent(comp) {
+							cls = "mnt-unvalidated-component"
+						}
+					}
 				}
 				bad(cls, fmt.Sprintf("backend %s got %q, which is neither a handle's path nor a handle's path plus one validated component", u.Op, p))
 			}
@@ -193,7 +203,7 @@ func checkC07(r *Result, rng *rand.Rand, thorough bool) {
 	}
 	targets := append(advStrings(3), []byte("../x"), []byte("a/../../x"), []byte("/etc/passwd"), []byte("a/b/.."), []byte("./a"), []byte("a//b"), []byte("x/..x/y"), []byte("..a"), []byte("a.."))
 	seed := []string{"mkdir /d", "file /d/f " + hx([]byte("hi")), "file /a", "link /d/up ../a", "link /abs /a", "link /ok a"}
-	procs := []string{"lookup", "create", "mkdir", "symlink", "remove", "rmdir", "rename", "mknod", "link", "mnt"}
+	procs := []string{"lookup", "create", "mkdir", "symlink", "remove", "rmdir", "rename", "mknod", "link", "mnt", "mnt1"}
 	r.Rule = fmt.Sprintf("every name-taking procedure x %d adversarial names (all strings <= %d over {a . / \\ NUL space}, lengths 255/256/300, traversal literals, random long strings) in the root and in a subdirectory, rename with adversarial source and destination, SYMLINK with %d adversarial targets, READLINK of pre-existing links with '..' and absolute targets, MNT with adversarial paths; every backend path argument checked against the handle table", len(names), maxLen, len(targets))
 	run := func(c c07Case) {
 		vs := judgeC07(c)
